@@ -246,6 +246,9 @@ Section Shards.
   Qed.
 End Shards.
 
+Lemma dm_default_has_shards (M : Type) (e : M) n : n <> O -> has_shards M (dm_default e n).
+Proof. intros H. unfold has_shards. cbn. destruct n; [congruence|discriminate]. Qed.
+
 (* membership versions (for the set-like types) *)
 Section ShardsIn.
   Variable hash : Z -> nat.
@@ -333,7 +336,7 @@ Section CRelIndex.
   Definition cri_abs (c : cri) : mmap := dm_abs hvec hv_abs c.
   Definition cri_wf (c : cri) : Prop := Forall hv_wf (snd c) /\ dm_placed hash hvec hv_keys c.
 
-  Lemma cri_default_wf n : cri_wf (dm_default [] n) /\ cri_abs (dm_default [] n) = [] /\ fst (dm_default ([] : hvec) n) = false.
+  Lemma cri_default_wf n : cri_wf (dm_default ([] : hvec) n) /\ cri_abs (dm_default ([] : hvec) n) = [] /\ fst (dm_default ([] : hvec) n) = false.
   Proof.
     split; [|split; [|reflexivity]].
     - split.
@@ -529,7 +532,7 @@ Section CRelFullIndex.
     (cfi_wf c -> cfi_wf (dm_freeze c) /\ cfi_wf (dm_unfreeze c)).
   Proof. repeat split; try reflexivity; apply H. Qed.
 
-  Lemma cfi_default_wf n : cfi_wf (dm_default [] n) /\ cfi_entries (dm_default [] n) = [] /\ fst (dm_default ([] : fmap) n) = false.
+  Lemma cfi_default_wf n : cfi_wf (dm_default ([] : fmap) n) /\ cfi_entries (dm_default ([] : fmap) n) = [] /\ fst (dm_default ([] : fmap) n) = false.
   Proof.
     split; [|split; [|reflexivity]].
     - split.
@@ -806,7 +809,7 @@ Section CLatIndex.
     (clat_wf c -> clat_wf (dm_freeze c) /\ clat_wf (dm_unfreeze c)).
   Proof. repeat split; try reflexivity; apply H. Qed.
 
-  Lemma clat_default_wf n : clat_wf (dm_default [] n) /\ clat_abs (dm_default [] n) = [] /\ fst (dm_default ([] : lmap) n) = false.
+  Lemma clat_default_wf n : clat_wf (dm_default ([] : lmap) n) /\ clat_abs (dm_default ([] : lmap) n) = [] /\ fst (dm_default ([] : lmap) n) = false.
   Proof.
     split; [|split; [|reflexivity]].
     - split.
@@ -1114,3 +1117,169 @@ Section CRelNoIndex.
     rewrite P. apply Permutation_app_tail, Permutation_map. now apply interleave_perm.
   Qed.
 End CRelNoIndex.
+
+(* ================================================================== end to end: concurrent phase, freeze, read *)
+Section EndToEnd.
+  Variable sh : forall A : Type, list A -> list A.
+  Hypothesis sh_perm : forall A (l : list A), Permutation (sh A l) l.
+  Variable hash : Z -> nat.
+
+  Lemma has_shards_len {M} (c c' : dmap M) : length (snd c') = length (snd c) -> has_shards M c -> has_shards M c'.
+  Proof. unfold has_shards. intros L H E. rewrite E in L. destruct (snd c); [congruence|discriminate]. Qed.
+
+  (* CRelIndex: whatever the interleaving, after the phase and a freeze every lookup returns exactly the values
+     inserted under the key by all threads together *)
+  Theorem cri_concurrent_then_lookup n (threads : list (list (Z * Z))) schedule : n <> O -> interleave threads schedule ->
+    exists c', steps (cri_step hash) schedule (dm_default [] n) = Ok c' /\
+      forall k, exists r, cri_get hash k (dm_freeze c') = Ok r /\
+        match r with
+        | Some vs => Permutation vs (mm_lookup k (mm_of_inserts (concat threads))) /\ vs <> []
+        | None => mm_lookup k (mm_of_inserts (concat threads)) = []
+        end.
+  Proof.
+    intros Hn I. destruct (cri_default_wf hash n) as [W0 [A0 F0]].
+    pose proof (dm_default_has_shards hvec [] n Hn) as Hs0.
+    destruct (cri_steps_spec hash schedule _ F0 Hs0) as [c' [E [F [L [P W]]]]]. exists c'. split; [exact E|]. intros k.
+    assert (Hs : has_shards hvec (dm_freeze c')) by (apply (has_shards_len (dm_default [] n)); [exact L|exact Hs0]).
+    destruct (cri_get_spec hash k (dm_freeze c') eq_refl Hs (W W0)) as [r [G S]]. exists r. split; [exact G|].
+    assert (Q : Permutation (cri_abs (dm_freeze c')) (mm_of_inserts (concat threads))).
+    { change (cri_abs (dm_freeze c')) with (cri_abs c'). rewrite P, A0. unfold mm_union, mm_of_inserts. rewrite app_nil_r.
+      now apply interleave_perm. }
+    destruct r as [vs|].
+    - destruct S as [-> Hne]. split; [now apply mm_lookup_perm|exact Hne].
+    - apply Permutation_nil. rewrite <- S. apply Permutation_sym. now apply mm_lookup_perm.
+  Qed.
+
+  (* CLatIndex: the rows found under a key are exactly those some thread inserted, each once *)
+  Theorem clat_concurrent_then_lookup n (threads : list (list (Z * Z))) schedule : n <> O -> interleave threads schedule ->
+    exists c', steps (clat_step hash) schedule (dm_default [] n) = Ok c' /\
+      forall k, exists r, clat_get sh hash k (dm_freeze c') = Ok r /\
+        match r with
+        | Some vs => NoDup vs /\ vs <> [] /\ forall v, In v vs <-> In (k, v) (concat threads)
+        | None => forall v, ~ In (k, v) (concat threads)
+        end.
+  Proof.
+    intros Hn I. destruct (clat_default_wf hash n) as [W0 [A0 F0]].
+    pose proof (dm_default_has_shards lmap [] n Hn) as Hs0.
+    destruct (clat_steps_spec hash schedule _ F0 Hs0 W0) as [c' [E [F [W H]]]]. exists c'. split; [exact E|]. intros k.
+    assert (L : length (snd c') = length (snd (dm_default ([] : lmap) n))).
+    { clear - E F0 Hs0 W0. revert E. generalize (dm_default ([] : lmap) n) as c0. induction schedule as [|[k v] l IH]; intros c0 E.
+      - unfold steps in E. cbn in E. inversion E. reflexivity.
+      - unfold steps in E. cbn [fold_left] in E. unfold bind at 2 in E. unfold clat_step at 2 in E. cbn [fst snd] in E.
+        destruct (clat_insert hash k v c0) as [c1| |] eqn:E1.
+        + fold (steps (clat_step hash) l c1) in E. rewrite (IH c1 E). unfold clat_insert, dm_write in E1.
+          destruct (fst c0); [discriminate|]. destruct (is_nil (snd c0)); [discriminate|]. inversion E1. cbn [snd]. apply upd_nth_length.
+        + exfalso. clear - E. induction l as [|a l IHl]; [discriminate|]. cbn [fold_left bind] in E. exact (IHl E).
+        + exfalso. clear - E. induction l as [|a l IHl]; [discriminate|]. cbn [fold_left bind] in E. exact (IHl E). }
+    assert (Hs : has_shards lmap (dm_freeze c')) by (apply (has_shards_len (dm_default [] n)); [exact L|exact Hs0]).
+    destruct (clat_get_spec sh sh_perm hash k (dm_freeze c') eq_refl Hs W) as [r [G S]]. exists r. split; [exact G|].
+    assert (Q : forall v, In (k, v) (clat_abs c') <-> In (k, v) (concat threads)).
+    { intros v. rewrite H, A0. pose proof (interleave_perm _ _ I) as P. split.
+      - intros [H1|[]]. eapply Permutation_in; [exact P|exact H1].
+      - intros H1. left. eapply Permutation_in; [apply Permutation_sym, P|exact H1]. }
+    change (clat_abs (dm_freeze c')) with (clat_abs c') in S. destruct r as [vs|].
+    - destruct S as [S1 [S2 S3]]. split; [exact S2|]. split; [exact S3|]. intros v. rewrite <- Q, <- mm_lookup_in.
+      split; apply Permutation_in; [exact S1|apply Permutation_sym, S1].
+    - intros v Hv. apply Q in Hv. apply mm_lookup_in in Hv. rewrite S in Hv. destruct Hv.
+  Qed.
+
+  (* CRelNoIndex: the single lookup returns every pushed value once, whatever the pool size and the threads' indices *)
+  Theorem cni_concurrent_then_lookup pool (threads : list (list (nat * Z))) schedule : interleave threads schedule ->
+    exists c', steps cni_step schedule (cni_default pool) = Ok c' /\
+      exists vs, cni_get (cni_freeze c') = Ok (Some vs) /\ Permutation vs (map snd (concat threads)).
+  Proof.
+    intros I. destruct (cni_default_spec pool) as [A0 [F0 L0]].
+    assert (Hs0 : snd (cni_default pool) <> []).
+    { intros E. rewrite E in L0. cbn in L0. lia. }
+    destruct (cni_concurrent_inserts threads schedule _ F0 Hs0 I) as [c' [E P]]. exists c'. split; [exact E|].
+    exists (cni_abs c'). split; [reflexivity|]. rewrite P, A0. now rewrite app_nil_r.
+  Qed.
+
+  (* CRelFullIndex: plain inserts (overwriting) and insert_if_not_present calls mixed in one phase *)
+  Fixpoint cfi_mixed_steps (l : list (bool * Z * Z)) (c : cfi) : res (cfi * list (Z * bool)) :=
+    match l with
+    | [] => Ok (c, [])
+    | (true, k, v) :: r =>
+        bind (cfi_insert_if_not_present hash k v c) (fun cb =>
+        bind (cfi_mixed_steps r (fst cb)) (fun cr => Ok (fst cr, (k, snd cb) :: snd cr)))
+    | (false, k, v) :: r => bind (cfi_insert hash k v c) (fun c1 => cfi_mixed_steps r c1)
+    end.
+  Definition mcalled (np : bool) (k : Z) (l : list (bool * Z * Z)) : bool :=
+    existsb (fun o => Bool.eqb (fst (fst o)) np && (snd (fst o) =? k)) l.
+
+  Lemma mcalled_cons np np' k k0 v l : mcalled np k0 ((np', k, v) :: l) = (Bool.eqb np' np && (k =? k0)) || mcalled np k0 l.
+  Proof. reflexivity. Qed.
+
+  Theorem cfi_mixed_steps_spec l : forall c, fst c = false -> has_shards fmap c ->
+    exists c' rs, cfi_mixed_steps l c = Ok (c', rs) /\ fst c' = false /\
+      (forall k, (winners k rs <= 1)%nat) /\
+      (forall k, cfi_has hash k c = true -> winners k rs = 0%nat) /\
+      (forall k, cfi_has hash k c = false -> mcalled false k l = false -> winners k rs = if mcalled true k l then 1%nat else 0%nat) /\
+      (forall k, cfi_has hash k c' = cfi_has hash k c || mcalled true k l || mcalled false k l) /\
+      (cfi_wf hash c -> cfi_wf hash c').
+  Proof.
+    induction l as [|[[np k] v] l IH]; intros c Hf Hs.
+    - exists c, []. split; [reflexivity|]. split; [exact Hf|]. split; [intros k; cbn; lia|]. split; [reflexivity|]. split; [reflexivity|].
+      split; [intros k; cbn; now rewrite !orb_false_r|auto].
+    - destruct np.
+      + destruct (cfi_insert_if_not_present_spec hash k v c Hf Hs) as [c1 [E1 [F1 [L1 [_ [HS1 W1]]]]]].
+        assert (Hs1 : has_shards fmap c1) by (apply (has_shards_len c); assumption).
+        destruct (IH c1 F1 Hs1) as [c' [rs [E [F [B1 [B2 [B3 [B4 W]]]]]]]].
+        exists c', ((k, negb (cfi_has hash k c)) :: rs). cbn [cfi_mixed_steps]. rewrite E1. cbn [bind fst snd]. rewrite E. cbn [bind fst snd].
+        split; [reflexivity|]. split; [exact F|].
+        assert (WN : forall k0, winners k0 ((k, negb (cfi_has hash k c)) :: rs) =
+                     ((if ((k =? k0)%Z && negb (cfi_has hash k c))%bool then 1 else 0) + winners k0 rs)%nat).
+        { intros k0. unfold winners. cbn [filter fst snd]. destruct ((k =? k0) && negb (cfi_has hash k c)); reflexivity. }
+        split; [|split; [|split; [|split]]].
+        * intros k0. rewrite WN. destruct (Z.eqb_spec k k0) as [->|Ne]; cbn [andb].
+          -- destruct (cfi_has hash k0 c) eqn:H0; cbn [negb]; [apply B1|]. rewrite (B2 k0); [lia|]. rewrite HS1, Z.eqb_refl. apply orb_true_r.
+          -- apply B1.
+        * intros k0 H0. rewrite WN. rewrite (B2 k0); [|rewrite HS1, H0; reflexivity].
+          destruct (Z.eqb_spec k k0) as [->|Ne]; cbn [andb]; [rewrite H0|]; reflexivity.
+        * intros k0 H0 Hc. rewrite WN. rewrite mcalled_cons in *. cbn [Bool.eqb andb orb] in *.
+          destruct (Z.eqb_spec k k0) as [->|Ne]; cbn [andb orb] in *.
+          -- rewrite H0. cbn [negb]. rewrite (B2 k0); [reflexivity|]. rewrite HS1, Z.eqb_refl. apply orb_true_r.
+          -- apply B3; [rewrite HS1, H0; cbn; now apply Z.eqb_neq|exact Hc].
+        * intros k0. rewrite B4, HS1, !mcalled_cons. cbn [Bool.eqb andb orb]. destruct (k =? k0), (cfi_has hash k0 c), (mcalled true k0 l), (mcalled false k0 l); reflexivity.
+        * intros Wc. apply W, W1, Wc.
+      + destruct (cfi_insert_spec hash k v c Hf Hs) as [c1 [E1 [F1 [L1 [LK1 W1]]]]].
+        assert (Hs1 : has_shards fmap c1) by (apply (has_shards_len c); assumption).
+        assert (HS1 : forall k', cfi_has hash k' c1 = cfi_has hash k' c || (k =? k')).
+        { intros k'. rewrite !cfi_has_lookup, LK1. destruct (k =? k'); [now rewrite orb_true_r|now rewrite orb_false_r]. }
+        destruct (IH c1 F1 Hs1) as [c' [rs [E [F [B1 [B2 [B3 [B4 W]]]]]]]].
+        exists c', rs. cbn [cfi_mixed_steps]. rewrite E1. cbn [bind]. rewrite E.
+        split; [reflexivity|]. split; [exact F|]. split; [exact B1|]. split; [|split; [|split]].
+        * intros k0 H0. apply B2. rewrite HS1, H0. reflexivity.
+        * intros k0 H0 Hc. rewrite mcalled_cons in *. cbn [Bool.eqb andb orb] in *. apply orb_false_iff in Hc as [Hc1 Hc2].
+          apply B3; [rewrite HS1, H0, Hc1; reflexivity|exact Hc2].
+        * intros k0. rewrite B4, HS1, !mcalled_cons. cbn [Bool.eqb andb orb]. destruct (k =? k0), (cfi_has hash k0 c), (mcalled true k0 l), (mcalled false k0 l); reflexivity.
+        * intros Wc. apply W, W1, Wc.
+  Qed.
+  Lemma mcalled_perm np k a b : Permutation a b -> mcalled np k a = mcalled np k b.
+  Proof.
+    intros P. unfold mcalled. induction P as [|x a b P IH|x y a|a b c0 P1 IH1 P2 IH2]; cbn [existsb].
+    - reflexivity.
+    - now rewrite IH.
+    - destruct (Bool.eqb (fst (fst x)) np && (snd (fst x) =? k)), (Bool.eqb (fst (fst y)) np && (snd (fst y) =? k)); reflexivity.
+    - now rewrite IH1.
+  Qed.
+
+  (* for EVERY interleaving of threads that mix index_insert and insert_if_not_present: never more than one
+     winner per key, none for a key already present, exactly one for an absent key nobody overwrites *)
+  Theorem cfi_concurrent_mixed (threads : list (list (bool * Z * Z))) schedule c :
+    fst c = false -> has_shards fmap c -> interleave threads schedule ->
+    exists c' rs, cfi_mixed_steps schedule c = Ok (c', rs) /\
+      (forall k, (winners k rs <= 1)%nat) /\
+      (forall k, cfi_has hash k c = true -> winners k rs = 0%nat) /\
+      (forall k, cfi_has hash k c = false -> mcalled false k (concat threads) = false ->
+                 winners k rs = if mcalled true k (concat threads) then 1%nat else 0%nat) /\
+      (forall k, cfi_has hash k c' = cfi_has hash k c || mcalled true k (concat threads) || mcalled false k (concat threads)) /\
+      (cfi_wf hash c -> cfi_wf hash c').
+  Proof.
+    intros Hf Hs I. destruct (cfi_mixed_steps_spec schedule c Hf Hs) as [c' [rs [E [_ [B1 [B2 [B3 [B4 W]]]]]]]].
+    pose proof (interleave_perm _ _ I) as P. exists c', rs. split; [exact E|]. split; [exact B1|]. split; [exact B2|].
+    split; [|split; [|exact W]].
+    - intros k H0 Hc. rewrite <- (mcalled_perm true k _ _ P). apply B3; [exact H0|]. now rewrite (mcalled_perm false k _ _ P).
+    - intros k. rewrite <- (mcalled_perm true k _ _ P), <- (mcalled_perm false k _ _ P). apply B4.
+  Qed.
+End EndToEnd.
